@@ -27,6 +27,13 @@ def _memo_tests(test):
     t = test
     if isinstance(t, ast.Compare) and len(t.ops) == 1 and isinstance(t.ops[0], ast.NotIn):
         return t.left, t.comparators[0]
+    if isinstance(t, ast.Compare) and len(t.ops) == 1 and isinstance(t.ops[0], ast.NotEq):
+        # `if D.get('tag') != x:` / `if D['tag'] != x:` -- a one-slot memo whose validity tag is x
+        for a, b in ((t.left, t.comparators[0]), (t.comparators[0], t.left)):
+            if isinstance(a, ast.Call) and isinstance(a.func, ast.Attribute) and a.func.attr == 'get' and a.args and isinstance(a.args[0], ast.Constant):
+                return b, a.func.value
+            if isinstance(a, ast.Subscript) and isinstance(a.slice, ast.Constant) and isinstance(a.slice.value, str):
+                return b, a.value
     if isinstance(t, ast.UnaryOp) and isinstance(t.op, ast.Not) and isinstance(t.operand, (ast.Attribute, ast.Name)):
         return None, t.operand
     if isinstance(t, ast.Compare) and len(t.ops) == 1 and isinstance(t.ops[0], ast.Is) and isinstance(t.comparators[0], ast.Constant) \
@@ -75,6 +82,10 @@ def memo_sites(fn):
             for t in s.targets:
                 if key is not None and isinstance(t, ast.Subscript) and src(t.value) == src(cont) and src(t.slice) == src(key):
                     out.append((iff, key, cont, s, s.value))
+                elif key is not None and isinstance(iff.test, ast.Compare) and isinstance(iff.test.ops[0], ast.NotEq) \
+                        and isinstance(t, ast.Subscript) and src(t.value) == src(cont) and isinstance(t.slice, ast.Constant) \
+                        and src(s.value) != src(key):
+                    out.append((iff, key, cont, s, s.value))       # tagged one-slot memo: D['value'] = f(...) under D.get('tag') != x
                 elif key is None and src(t) == src(cont):
                     out.append((iff, None, cont, s, s.value))
     return out
@@ -137,7 +148,8 @@ def g2_underkeyed(fn):
             continue
         # the container itself may be per-key (created in the same iteration): skip when it is assigned inside the innermost loop
         loop = guards.in_loop(iff, fn)
-        if isinstance(cont, ast.Name):
+        is_param = isinstance(cont, ast.Name) and cont.id in {a.arg for a in fn.args.args}
+        if isinstance(cont, ast.Name) and not is_param:
             created = [s for s in own_nodes(fn) if isinstance(s, ast.Assign) and any(isinstance(t, ast.Name) and t.id == cont.id for t in s.targets)]
             if loop is not None and any(guards.in_loop(c, fn) is loop for c in created):
                 continue
@@ -158,7 +170,20 @@ def g2_underkeyed(fn):
 def _attr_reads_writes(cls):
     """per method: (attributes of self read, attributes of self written, self-methods called)"""
     info = {}
-    for name, m in cls.methods.items():
+
+    class _M:
+        def __init__(self, node):
+            self.node = node
+    members = []
+    for s in cls.node.body:         # the class body itself: a property getter and its setter share one name
+        if isinstance(s, (ast.FunctionDef, ast.AsyncFunctionDef)):
+            nm = s.name
+            if any(isinstance(d, ast.Attribute) and d.attr in ('setter', 'deleter') for d in s.decorator_list):
+                nm = s.name + '.setter'
+            members.append((nm, _M(s)))
+    if not members:
+        members = list(cls.methods.items())
+    for name, m in members:
         reads, writes, calls = set(), set(), set()
         for n in ast.walk(m.node):
             if isinstance(n, ast.Attribute) and isinstance(n.value, ast.Name) and n.value.id == 'self':
@@ -198,6 +223,15 @@ def g3_uninvalidated(cls):
         for c in info[mname][2]:
             r |= closure_reads(c, seen)
         return r
+    def closure_writes(mname, seen=None):
+        seen = seen if seen is not None else set()
+        if mname in seen or mname not in info:
+            return set()
+        seen.add(mname)
+        w = set(info[mname][1])
+        for c in info[mname][2]:
+            w |= closure_writes(c, seen)
+        return w
     for name, m in cls.methods.items():
         if name == '__init__':
             continue
@@ -213,8 +247,10 @@ def g3_uninvalidated(cls):
                 attr = cont.attr
             elif isinstance(cont, ast.Name) and cont.id in alias:
                 attr = alias[cont.id]
-            if attr is None or key is None:
+            if attr is None:
                 continue
+            if key is None and not attr.startswith('_'):
+                continue        # keyless: only private fields are memos, public ones are lazily defaulted settings
             called = [c.func.attr for c in ast.walk(value) if isinstance(c, ast.Call) and isinstance(c.func, ast.Attribute)
                       and isinstance(c.func.value, ast.Name) and c.func.value.id == 'self']
             if not called:
@@ -227,7 +263,7 @@ def g3_uninvalidated(cls):
                 if wname in ('__init__', name):
                     continue
                 touched = (w & needed)
-                if touched and attr not in w:
+                if touched and attr not in closure_writes(wname):
                     findings.append(('G3', store, 'self.%s memoises %s, which reads self.%s; %s() writes that state but does not reset self.%s, so the '
                                                   'memo outlives the numbering it was computed from'
                                      % (attr, ' / '.join('self.%s()' % x for x in called), ', self.'.join(sorted(touched)), wname, attr)))
